@@ -189,7 +189,7 @@ def _m_string_escape(v):
     fd = w.get("first_difference")
     if fd and len(fd) == 6:
         return _explains_value_change(fd[4], fd[5])
-    if "rejected" in sig or "differs" in sig:
+    if "rejected" in sig or "differ" in sig:
         # the printed text does not parse (or parses to something else): only explained if a literal is predicted unlexable
         return any(sim_print_parse(s, q, k) is None for k, s, q in trig)
     return False
